@@ -32,6 +32,37 @@ def tokenizer_table(prog):
     return out
 
 
+def r16_fileid(chk, rule="R16-fileid"):
+    prog = mir.prog()
+    b = prog.bodies.get("tokenizer::tokenize")
+    n = 0
+    if b is None:
+        chk.add(Finding(rule, rule + "::anchor", "tokenizer::tokenize not found"))
+    else:
+        obs, fz = panics.obligations_of(b, prog)
+        adv = [o for o in obs if o.kind == "Overflow:Add" and re.search(r"Add len\(.*filenames\)", o.desc)]
+        n = 1
+        if not adv:
+            others = sorted({o.desc for o in obs if o.kind == "Overflow:Add"})
+            chk.add(Finding(rule, rule + "::advance", "after tokenizing an included file the next file id is not advanced by the number of files that call returned (additions found: %s): a later /include reuses the id of a nested include and its tokens are read against the wrong file's text" % others, b.where()))
+        S = sym.Analyzer(prog, opaque=[r"tokenizer::.*", r"loader::.*"]).summary(b.id)
+        apps = [e for e in S.events if e[0] == "call" and e[3] == b.id and e[1].endswith("Vec::append")]
+        names = {guards.fmt_terms(e[2][1]) for e in apps if len(e[2]) > 1}
+        for want in ("filenames", "filedata", "tokens"):
+            n += 1
+            if not any(want in x for x in names):
+                chk.add(Finding(rule, rule + "::append::" + want, "tokenize() does not append the nested result's %s to its own" % want, b.where()))
+        # Vec::append empties its argument: the count of nested files must be read before the nested names are moved out
+        for o in adv:
+            for e in apps:
+                if len(e[2]) > 1 and "filenames" in guards.fmt_terms(e[2][1]):
+                    n += 1
+                    if not b.dominates(o.bb, e[6]) or o.bb == e[6]:
+                        chk.add(Finding(rule, rule + "::advance-after-append", "tokenize() reads the number of nested file names after Vec::append moved them out (append leaves its argument empty): the next file id does not advance, sibling /include files share one id and line offsets are computed across different files", b.where(o.line)))
+    chk.rule(rule, "file-id bookkeeping of nested includes (id advance read before the names are moved, names/data/tokens appended)", n, floor=5)
+
+
+
 def run(chk):
     genrules.r16_merge(chk)
     genrules.r01_dual(chk, rule="R16-dual-aux", inc_rule="R16-writer")
@@ -39,6 +70,8 @@ def run(chk):
     chk.rules = [r for r in chk.rules if r["rule"] in ("R16-merge", "R16-writer")]
     genrules.expansion_diffs(chk, "R16-shipped", lambda k: "merge_includes" in k,
                              "generated A2lObject impls (merge_includes/reset_location) identical (canonical form) to the generator's output")
+    from . import writertab
+    writertab.compare(chk, "R16-group", fn_filter=lambda fn: fn.split("::")[-1] in ("add_group",), floor=15)
     prog = mir.prog()
     # ------------------------------------------------------------------ R16-ifdata
     adt = prog.adts.get(GID)
@@ -92,26 +125,7 @@ def run(chk):
                 chk.add(Finding("R16-ifdata", "R16-ifdata::sibling::" + v, "the writer walks into %s values but merge_includes does not" % v, b.where()))
     chk.rule("R16-ifdata", "GenericIfData variants that contain further items / carry an include origin handled by merge_includes", n, floor=8)
 
-    # ------------------------------------------------------------------ R16-fileid
-    b = prog.bodies.get("tokenizer::tokenize")
-    n = 0
-    if b is None:
-        chk.add(Finding("R16-fileid", "R16-fileid::anchor", "tokenizer::tokenize not found"))
-    else:
-        obs, fz = panics.obligations_of(b, prog)
-        adv = [o for o in obs if o.kind == "Overflow:Add" and re.search(r"Add len\(.*filenames\)", o.desc)]
-        n = 1
-        if not adv:
-            others = sorted({o.desc for o in obs if o.kind == "Overflow:Add"})
-            chk.add(Finding("R16-fileid", "R16-fileid::advance", "after tokenizing an included file the next file id is not advanced by the number of files that call returned (additions found: %s): a later /include reuses the id of a nested include and its tokens are read against the wrong file's text" % others, b.where()))
-        S = sym.Analyzer(prog, opaque=[r"tokenizer::.*", r"loader::.*"]).summary(b.id)
-        apps = [e for e in S.events if e[0] == "call" and e[3] == b.id and e[1].endswith("Vec::append")]
-        names = {guards.fmt_terms(e[2][1]) for e in apps if len(e[2]) > 1}
-        for want in ("filenames", "filedata", "tokens"):
-            n += 1
-            if not any(want in x for x in names):
-                chk.add(Finding("R16-fileid", "R16-fileid::append::" + want, "tokenize() does not append the nested result's %s to its own" % want, b.where()))
-    chk.rule("R16-fileid", "file-id bookkeeping of nested includes (id advance, names/data/tokens appended)", n, floor=4)
+    r16_fileid(chk)
 
     # ------------------------------------------------------------------ R16-err
     diag.compare(chk, "R16-err", "tokenizer", tokenizer_table(prog), "include handling in tokenize()/tokenize_include(): error constructions and nested calls with their control predicates, compared with the reviewed table", floor=8)
